@@ -150,7 +150,7 @@ fn main() {
     let status_dir = std::path::PathBuf::from("/var/log/azure-proxy-agent/vt-status");
     let _ = std::fs::create_dir_all(&status_dir);
     {
-        let task = ProxyAgentStatusTask::new(Duration::from_millis(15), status_dir.clone(), w.shared.get_cancellation_token(), w.shared.get_key_keeper_shared_state(), w.shared.get_agent_status_shared_state());
+        let task = ProxyAgentStatusTask::new(Duration::from_millis(2), status_dir.clone(), w.shared.get_cancellation_token(), w.shared.get_key_keeper_shared_state(), w.shared.get_agent_status_shared_state());
         w.rt.spawn(async move { task.start().await });
     }
     let status_file = status_dir.join("status.json");
@@ -251,17 +251,17 @@ fn main() {
                 }
             }
             // status.json, for a slice of the histories (each costs ~2 status intervals)
-            if hist_n % (if thorough { 7 } else { 37 }) == 0 || h.len() == 5 {
-                std::thread::sleep(Duration::from_millis(45));
+            if hist_n % (if thorough { 3 } else { 7 }) == 0 || h.len() == 5 {
+                std::thread::sleep(Duration::from_millis(7));
                 let mut ok = false;
                 let mut last = None;
-                for _ in 0..40 {
+                for _ in 0..200 {
                     last = read_status_json(&status_file);
                     if last.as_ref() == Some(&refsum) {
                         ok = true;
                         break;
                     }
-                    std::thread::sleep(Duration::from_millis(15));
+                    std::thread::sleep(Duration::from_millis(3));
                 }
                 status_json_checked += 1;
                 if !ok {
@@ -488,7 +488,7 @@ fn main() {
     res.cov("status_json_comparisons", status_json_checked);
     res.cov("exhaustive", true);
     res.cov("host_refused_requests", host_refused_total);
-    res.cov("rule", format!("every history of <= {max_len} requests over {{alice, bob -> IMDS; two elevated root processes -> WireServer, one of them also -> HostGAPlugin}} x 3 URLs (granted, matched-but-ungranted, unmatched) x {{host answers, host resets the connection}} (length-3 histories without the second root process), plus every caller x URL twice while the host answers relayed requests with 401 / 403 / 500, plus 5 identical denials, 6 denials on 3 concurrent keep-alive connections, a denied request on a connection that was opened (and served) while the rules were disabled, a denied request after the host closed the relay connection, 520 (1100) denied requests from as many different processes, and a sampled burst of 250 (600) concurrent denied requests, under {} mode/default configurations; after every request the public failed-authorization summary is compared with the reference multiset (user, process path, command line, destination -> count); status.json of the real status task is compared for every 7th (quick: 37th) history and every 5-denial block; non-trivial = request the rules deny", configs.len()));
+    res.cov("rule", format!("every history of <= {max_len} requests over {{alice, bob -> IMDS; two elevated root processes -> WireServer, one of them also -> HostGAPlugin}} x 3 URLs (granted, matched-but-ungranted, unmatched) x {{host answers, host resets the connection}} (length-3 histories without the second root process), plus every caller x URL twice while the host answers relayed requests with 401 / 403 / 500, plus 5 identical denials, 6 denials on 3 concurrent keep-alive connections, a denied request on a connection that was opened (and served) while the rules were disabled, a denied request after the host closed the relay connection, 520 (1100) denied requests from as many different processes, and a sampled burst of 250 (600) concurrent denied requests, under {} mode/default configurations; after every request the public failed-authorization summary is compared with the reference multiset (user, process path, command line, destination -> count); status.json of the real status task is compared for every 3rd (quick: 7th) history (status interval 2 ms) and every 5-denial block; non-trivial = request the rules deny", configs.len()));
     res.assume("audit-mode denials are compared with the same request under an allowing rule set (status and what the host received, modulo date/MAC headers)");
     std::process::exit(res.finish());
 }
